@@ -435,7 +435,7 @@ def native_resumed_rar(kind):
                                                  min_pts=(0.0, 0.0), max_pts=(1.0, 1.0), tmin=0.0, tmax=1.0, rar_parameters=rp, n_start=4, nt_start=4)
             params = Params(nn_params=u.init_params(), eq_params={})
             loss = jinns.loss.LossPDENonStatio(u=u, dynamic_loss=Dyn(), params=params)
-        tx = optax.sgd(1e-3)
+        tx = optax.adam(1e-3)
         out = jinns.solve(n_iter=2, init_params=params, data=g, loss=loss, optimizer=tx, verbose=False)
 
         def active(gen):
@@ -450,6 +450,14 @@ def native_resumed_rar(kind):
         if len(np.asarray(out2[1])) != 2 or not np.all(np.isfinite(np.asarray(out2[1]))) or any(y != x + 4 for x, y in zip(a1, a2)):
             return [f"{kind} refining generator: resumed run of 2 iterations: loss history {np.asarray(out2[1]).tolist()}, active points {a1} -> {a2} "
                     f"(expected +4 on each refined store)"]
+        # a third call of another length (the loop runs exactly n iterations, whatever earlier calls in the process ran)
+        def steps(st):
+            cs = [int(x) for x in jax.tree_util.tree_leaves(st) if getattr(x, "dtype", None) is not None and jnp.issubdtype(x.dtype, jnp.integer) and jnp.ndim(x) == 0]
+            return cs[0] if cs else None
+        out3 = jinns.solve(n_iter=3, init_params=out2[0], data=out2[3], loss=loss, optimizer=tx, opt_state=out2[5], verbose=False)
+        if steps(out3[5]) is not None and (steps(out2[5]), steps(out3[5])) != (4, 7):
+            return [f"{kind}: solve(n_iter=2), resumed with n_iter=2, resumed with n_iter=3: the optimizer's step counter reads {steps(out2[5])} then "
+                    f"{steps(out3[5])} (expected 4 then 7: exactly n iterations per call)"]
     return None
 
 
